@@ -243,7 +243,8 @@ def jobs(tier):
         for op in ("zip", "zip_longest", "map", "chain"):
             add(op, 3, 2, 12, fl="agen", ffl="adef")
         for b0 in (False, True):
-            add("merge", 3, 2, 12, fl="agen", ffl="adef", b0=b0, b1=False)
+            for yr in ((0, 1), (2, 3), (4, 6)):  # split by exception kind
+                add("merge", 3, 2, 12, fl="agen", ffl="adef", b0=b0, b1=False, yonly=yr)
             add("merge", 3, 1, 9, fl="agen", ffl="adef", b0=b0, b1=True)
         for step in (1, 2, 3):
             add("islice", 1, 3, 8, fl="agen", ffl="def", form=3, PR=3, p2=step, b0=False, b1=False, b2=False, ysplit=True)
